@@ -168,6 +168,9 @@ def _sched_arbiter(ctx: Ctx, pid: str, fn: Fn):
 
 def mgr_scheduler_per_component(ctx: Ctx, pid: str):
     """C01.h: one scheduler is instantiated for every connected component of the same conflict graph."""
+    from . import core8
+
+    core8.graph_ccs(ctx, pid)
     rule = f"{pid}.scheduler-per-cc"
     fn = _fn(ctx, MANAGER, "TransactionManager.elaborate", rule)
     found = []
